@@ -69,6 +69,8 @@ def translate():
          "update_initial_window_size no longer rejects values above 2^31-1"),
         (code, r"match stream\.window\.checked_add\(delta\) \{\s*Some\(new_window\) => \{\s*open_window \|= stream\.window <= 0 && new_window > 0;\s*stream\.window = new_window;",
          "update_initial_window_size no longer applies the delta with checked_add to every stream"),
+        (code, r"match stream\.window\.checked_add\(delta\) \{.{0,400}?None => return true,",
+         "update_initial_window_size no longer reports a stream-window overflow as an error"),
         (code, r"if self\.update_initial_window_size\(v, context\) \{.{0,200}?return self\.goaway\(H2Error::FlowControlError\);",
          "handle_settings_frame: an invalid SETTINGS_INITIAL_WINDOW_SIZE is no longer GOAWAY(FLOW_CONTROL_ERROR)"),
         (code, r"if self\.streams\.len\(\) >= self\.peer_settings\.settings_max_concurrent_streams as usize \{",
